@@ -141,7 +141,7 @@ def r20_4(ctx: Ctx) -> None:
         lim = None
         if ok:
             names = [x for x in a.args if isinstance(x, ast.Name)]
-            lim = [n for n in names if any(isinstance(v, ast.Call) and attr_tail(v) == "get_memory_limit" for v in q.assigned_values(wd, n.id))]
+            lim = [n for n in names if any(any(isinstance(w, ast.Call) and attr_tail(w) == "get_memory_limit" for w in ast.walk(v)) for v in q.assigned_values(wd, n.id))]
             ok = bool(lim)
         ctx.check(bool(ok), "R20.4", wd, c, "each step requests at most min(remaining, memory limit)", "the decode loop requests more than min(remaining, get_memory_limit()) per step (e.g. the whole member)")
     gm = ctx.prog.func("properties", "get_memory_limit")
@@ -151,8 +151,15 @@ def r20_4(ctx: Ctx) -> None:
         capv = ctx.ce.eval(cap[0].value, "properties") if cap else None
     except NotConst:
         capv = None
-    ok = capv is not None and capv <= 256 * 1024 * 1024 and all(
-        norm(r.value) == "default_limit" or (isinstance(r.value, ast.Call) and dotted(r.value.func) == "min" and any(norm(a) == "default_limit" for a in r.value.args)) for r in rets)
+    def capped(e: ast.AST) -> bool:
+        if norm(e) == "default_limit":
+            return True
+        if isinstance(e, ast.Call) and dotted(e.func) == "min":
+            return any(capped(a) for a in e.args)
+        if isinstance(e, ast.Call) and dotted(e.func) == "max":  # a floor: every operand capped (a constant below the cap counts)
+            return all(capped(a) or _const_le(ctx, a, capv) for a in e.args)
+        return False
+    ok = capv is not None and capv <= 256 * 1024 * 1024 and all(r.value is not None and capped(r.value) for r in rets)
     ctx.check(ok, "R20.4", gm, gm.node, f"memory limit capped by the constant {capv}", "get_memory_limit can return more than its constant cap (or the cap exceeds 256 MiB)", construct="memory limit cap")
     # the surplus parked in SevenZipDecompressor._buf is what exceeded max_length in ONE step
     d = ctx.prog.func("compressor", "SevenZipDecompressor.decompress")
@@ -163,7 +170,122 @@ def r20_4(ctx: Ctx) -> None:
     ctx.check(ok and bool(parks), "R20.4", d, parks[0] if parks else d.node, "only the surplus of one decode step is parked", "the decoder parks more than the surplus of a single step")
 
 
+def _const_le(ctx: Ctx, e: ast.AST, cap) -> bool:
+    try:
+        v = ctx.ce.eval(e, "properties")
+    except NotConst:
+        return False
+    return isinstance(v, int) and cap is not None and v <= cap
+
+
+def r20_5(ctx: Ctx) -> None:
+    """a member that is decoded INTO MEMORY (the target text of a symbolic link / junction: `with io.BytesIO() as sink:
+    self.decompress(fp, folder, sink, size, ...)`) has a declared size the archive chooses; the call stands under a constant bound
+    on that size (`if size > LIMIT: raise` before it), otherwise a 78 KB archive with a 0.5 GiB 'link' takes gigabytes."""
+    f = ctx.prog.func("py7zr", "Worker._extract_single")
+    sinks = {}
+    for w in walk(f.node):
+        if isinstance(w, ast.With):
+            for it in w.items:
+                if isinstance(it.context_expr, ast.Call) and dotted(it.context_expr.func) in ("io.BytesIO", "BytesIO") and isinstance(it.optional_vars, ast.Name):
+                    sinks[it.optional_vars.id] = w
+        if isinstance(w, ast.Assign) and isinstance(w.value, ast.Call) and dotted(w.value.func) in ("io.BytesIO", "BytesIO") and isinstance(w.targets[0], ast.Name):
+            sinks[w.targets[0].id] = w
+    n = 0
+    for c in q.calls(f):
+        if attr_tail(c) != "decompress" or len(c.args) < 4 or not (isinstance(c.args[2], ast.Name) and c.args[2].id in sinks):
+            continue
+        n += 1
+        size = norm(c.args[3])
+        bounded = False
+        for cd, pol in q.facts_at(f, c):
+            if not (isinstance(cd, ast.Compare) and len(cd.ops) == 1):
+                continue
+            l, op, r = cd.left, cd.ops[0], cd.comparators[0]
+            if norm(l) == size and _is_const(ctx, r):
+                bounded |= (isinstance(op, (ast.Gt, ast.GtE)) and not pol) or (isinstance(op, (ast.Lt, ast.LtE)) and pol)
+            if norm(r) == size and _is_const(ctx, l):
+                bounded |= (isinstance(op, (ast.Lt, ast.LtE)) and not pol) or (isinstance(op, (ast.Gt, ast.GtE)) and pol)
+        ctx.check(bounded, "R20.5", f, c, f"in-memory sink `{c.args[2].id}`: the declared size is under a constant bound",
+                  f"a member is decoded into an in-memory buffer (`{c.args[2].id}` = io.BytesIO()) whatever size the archive declares for it (`{size}` is not compared with any constant "
+                  "before the call): a tiny archive whose 'symbolic link' is 0.5 GiB of zeros makes extractall(path) allocate several times that", construct=f"unbounded in-memory sink {c.args[2].id}")
+    ctx.floor("R20.5", n, 1, "members decoded into memory (link texts)")
+
+
+def _is_const(ctx: Ctx, e: ast.AST) -> bool:
+    try:
+        v = ctx.ce.eval(e, "py7zr")
+    except NotConst:
+        return False
+    return isinstance(v, int)
+
+
+def r20_6(ctx: Ctx) -> None:
+    """folders decoded at the same time: (a) the loop that starts the per-folder threads/processes also waits for them (a `join` inside
+    the outermost loop around `start`) or runs over a slice of constant width - starting one task per folder before joining any makes
+    peak memory N times a single decoder's; (b) while several run, the step size of each is a share: Worker.decompress takes its block
+    size from a field that the parallel branch sets to a quotient (`limit // ...`)."""
+    f = ctx.prog.func("py7zr", "Worker.extract")
+    starts = [c for c in q.calls(f) if attr_tail(c) == "start" and not c.args]
+    ctx.floor("R20.6", len(starts), 1, "task starts in Worker.extract")
+    for c in starts:
+        loops = q.enclosing_loops(f, c)
+        ok = False
+        if not loops:
+            ok = True
+        else:
+            outer = loops[0] if loops[0].lineno <= loops[-1].lineno else loops[-1]
+            ok = any(isinstance(x, ast.Call) and attr_tail(x) == "join" for x in ast.walk(outer))
+        ctx.check(ok, "R20.6", f, c, "the loop that starts folder tasks also joins them (bounded number alive)",
+                  "Worker.extract starts one thread/process per folder in a loop that joins none of them: all folders are decoded at the same time, each with its own chunk buffers "
+                  "(4 folders of 0.5 GiB zeros in a 300 KB archive: 1.5 GiB; N folders: N x 380 MiB)", construct="unbounded concurrent folder tasks")
+    wd = ctx.prog.func("py7zr", "Worker.decompress")
+    fields = {norm(x) for v in q.assigned_values(wd, "max_block_size") for x in ast.walk(v) if isinstance(x, ast.Attribute) and norm(x).startswith("self.")}
+    shares = [n for n in walk(f.node) if isinstance(n, ast.Assign) and norm(n.targets[0]) in fields and any(isinstance(x, ast.BinOp) and isinstance(x.op, (ast.FloorDiv, ast.Div, ast.RShift)) for x in ast.walk(n.value))]
+    ctx.check(bool(shares), "R20.6", f, starts[0], "concurrent folders share one step budget (block size field set to a quotient)",
+              "while several folders are decoded at the same time each of them still takes the full get_memory_limit() per step: nothing divides the budget among the concurrent "
+              "workers (Worker.decompress reads no field that Worker.extract sets to a share)", construct="concurrent folders: undivided chunk budget")
+
+
+def r20_7(ctx: Ctx) -> None:
+    """the step size is positive: a zero or negative max_length means 'no limit' to SevenZipDecompressor.decompress, so every return of
+    get_memory_limit is the constant cap or has a positive constant floor (max(FLOOR, ...)); `(available - 256e6) >> 2` alone is
+    negative exactly when memory is scarce."""
+    gm = ctx.prog.func("properties", "get_memory_limit")
+    rets = [n for n in walk(gm.node) if isinstance(n, ast.Return)]
+    ctx.floor("R20.7", len(rets), 1, "returns of get_memory_limit")
+
+    def positive(e) -> bool:
+        if e is None:
+            return False
+        if isinstance(e, ast.Name):
+            vals = q.assigned_values(gm, e.id)
+            if vals:
+                return all(positive(v) for v in vals)
+        try:
+            v = ctx.ce.eval(e, "properties")
+            return isinstance(v, int) and v > 0
+        except NotConst:
+            pass
+        if isinstance(e, ast.Call) and dotted(e.func) == "max":
+            return any(positive(a) for a in e.args)
+        if isinstance(e, ast.Call) and dotted(e.func) == "min":
+            return all(positive(a) for a in e.args)
+        if isinstance(e, ast.Call) and dotted(e.func) == "int" and e.args:
+            return positive(e.args[0])
+        return False
+    for r in rets:
+        ctx.check(positive(r.value), "R20.7", gm, r, "the memory limit returned is positive",
+                  f"get_memory_limit can return `{norm(r.value)}`, which is zero or negative when less than 256 MB are available (or RLIMIT_DATA is below that): Worker.decompress passes "
+                  "it on as max_length, and a negative max_length means 'no limit' to the decoders - chunking is switched off exactly when memory is scarce (0: endless loop)", construct="memory limit not positive")
+    d = ctx.prog.func("compressor", "SevenZipDecompressor.decompress")
+    ctx.ok("R20.7", f"{d.qname}: negative max_length = unlimited (the reason for the floor)")
+
+
 def run(ctx: Ctx) -> None:
+    r20_5(ctx)
+    r20_6(ctx)
+    r20_7(ctx)
     r20_1(ctx)
     r20_2(ctx)
     r20_3(ctx)
